@@ -502,7 +502,7 @@ func gen(t *rapid.T) Case {
 	for i := 0; i < n; i++ {
 		a := rapid.SampledFrom(alphabet).Draw(t, "action")
 		if a.Op == "status" && rapid.IntRange(0, 3).Draw(t, "anycode") == 0 {
-			a.Code = rapid.SampledFrom([]int{200, 201, 204, 301, 400, 404, 418, 500, 599}).Draw(t, "code")
+			a.Code = rapid.SampledFrom([]int{200, 201, 204, 301, 400, 404, 418, 500, 599, 101, 103}).Draw(t, "code")
 		}
 		if a.Op == "write" && rapid.IntRange(0, 3).Draw(t, "anychunk") == 0 {
 			a.Chunk = rapid.SampledFrom([]string{"", " ", "MARK-x1", "[1,2]", "null", "{}"}).Draw(t, "chunk")
